@@ -48,10 +48,12 @@ type config struct {
 	split bool // EnableSplittingOnParsers
 	ph    bool // ProxyHeader: X-Forwarded-For
 	ipv   bool // EnableIPValidation
-	tp    bool // TrustProxy with no trusted proxy: the peer 10.0.0.7 is NOT trusted
+	tp    bool // TrustProxy with no trusted proxy: the peer is NOT trusted
+	srv   bool // driven through a real fasthttp server over loopback TCP (peer 127.0.0.1) instead of the
+	//            simulated connection loop (peer 10.0.0.7:4242)
 }
 
-var cfgFlags = []string{"cs", "ipv", "ph", "split", "tp"} // canonical (sorted) order
+var cfgFlags = []string{"cs", "ipv", "ph", "split", "srv", "tp"} // canonical (sorted) order
 
 func (c config) flag(n string) bool {
 	switch n {
@@ -63,6 +65,8 @@ func (c config) flag(n string) bool {
 		return c.ph
 	case "split":
 		return c.split
+	case "srv":
+		return c.srv
 	case "tp":
 		return c.tp
 	}
@@ -98,6 +102,8 @@ func decodeConfig(s string) (c config, ok bool) {
 			c.ph = true
 		case "split":
 			c.split = true
+		case "srv":
+			c.srv = true
 		case "tp":
 			c.tp = true
 		default:
@@ -109,7 +115,7 @@ func decodeConfig(s string) (c config, ok bool) {
 
 func (c config) fiber() fiber.Config {
 	fc := fiber.Config{Immutable: c.imm, CaseSensitive: c.cs, EnableSplittingOnParsers: c.split,
-		EnableIPValidation: c.ipv, TrustProxy: c.tp}
+		EnableIPValidation: c.ipv, TrustProxy: c.tp, ReadBufferSize: 64 << 10}
 	if c.ph {
 		fc.ProxyHeader = fiber.HeaderXForwardedFor
 	}
@@ -386,7 +392,7 @@ func (q request) valid() bool {
 		}
 	}
 	for _, p := range q.headers {
-		if p.k == "" || !isWord(p.k, "-") || !isWord(p.v, "._~-/=,;: ") || strings.HasPrefix(p.v, " ") || strings.HasSuffix(p.v, " ") {
+		if p.k == "" || !isWord(p.k, "-") || !isWord(p.v, "._~-/=,;:* ") || strings.HasPrefix(p.v, " ") || strings.HasSuffix(p.v, " ") {
 			return false
 		}
 		switch strings.ToLower(p.k) {
@@ -503,11 +509,11 @@ func (q request) wire() []byte {
 // generator
 
 var (
-	longWord   = strings.Repeat("lorem-ipsum.", 17) + "end" // 207 bytes: longer than any small-string fast path
-	hugeWord   = strings.Repeat("0123456789abcdef.", 80)    // 1360 bytes
+	longWord   = strings.Repeat("lorem-ipsum.", 17) + "end"  // 207 bytes: longer than any small-string fast path
+	hugeWord   = strings.Repeat("0123456789abcdef.", 80)     // 1360 bytes
 	bigBody    = strings.Repeat("big-body 0123456789 ", 260) // 5200 bytes: beyond a 4 KiB threshold
 	hugeBody   = strings.Repeat("huge body-", 7000)          // 70000 bytes: beyond 64 KiB
-	longName   = strings.Repeat("Nm0~", 40)                 // 160 bytes
+	longName   = strings.Repeat("Nm0~", 40)                  // 160 bytes
 	names      = []string{"alice", "bobby", "carol", "x", "Zed.9", "a~b", "longer", "ALICE", "al1ce", longName}
 	rests      = []string{"", "f", "file.txt", "a/b/c", "img/logo.png", "zzzzzzzz", "A/B", strings.Repeat("seg/", 30) + "leaf"}
 	qkeys      = []string{"name", "tag", "q", "id", "page", "f[a]", "l[]"}
@@ -1127,7 +1133,61 @@ func (w *worker) serve(wire []byte) error {
 	return nil
 }
 
-func observe(cfg config, q0 request, later []request) (obs string, probed []string, ok bool) {
+// serveTCP drives the requests through a real server: app.Listener on a loopback TCP listener, one
+// client connection at a time (re-dialled after an HTTP/1.0 exchange closed it), responses read in full
+// before the next request is written, so the handler never runs concurrently with the harness.
+func serveTCP(app *fiber.App, reqs []request) bool {
+	ln, err := net.Listen("tcp4", "127.0.0.1:0")
+	if err != nil {
+		return false
+	}
+	done := make(chan struct{})
+	go func() {
+		_ = app.Listener(ln, fiber.ListenConfig{DisableStartupMessage: true})
+		close(done)
+	}()
+	ok := true
+	var conn net.Conn
+	var br *bufio.Reader
+	for _, q := range reqs {
+		if conn == nil {
+			conn, err = net.DialTimeout("tcp4", ln.Addr().String(), 5*time.Second)
+			if err != nil {
+				ok = false
+				break
+			}
+			br = bufio.NewReaderSize(conn, 64<<10)
+		}
+		_ = conn.SetDeadline(time.Now().Add(10 * time.Second))
+		if _, err = conn.Write(q.wire()); err != nil {
+			ok = false
+			break
+		}
+		var resp fasthttp.Response
+		if err = resp.Read(br); err != nil || resp.StatusCode() != 200 {
+			ok = false
+			break
+		}
+		if q.proto == 1 || resp.ConnectionClose() {
+			_ = conn.Close()
+			conn = nil
+		}
+	}
+	if conn != nil {
+		_ = conn.Close()
+	}
+	_ = app.ShutdownWithTimeout(3 * time.Second)
+	select {
+	case <-done:
+	case <-time.After(5 * time.Second):
+		ok = false
+	}
+	return ok
+}
+
+// observe runs one case on the real code. It returns the configuration actually used: a case meant
+// for the real server falls back to the simulated connection loop when the server could not be driven.
+func observe(cfg config, q0 request, later []request) (used config, obs string, probed []string, ok bool) {
 	app := fiber.New(cfg.fiber())
 	app.RegisterCustomBinder(echoBinder{})
 	var caps []*captured
@@ -1153,14 +1213,21 @@ func observe(cfg config, q0 request, later []request) (obs string, probed []stri
 		return c.SendString("ok")
 	}
 	app.All("/u/:name/-/*", handler)
-	w := &worker{h: app.Handler(), fctx: &fasthttp.RequestCtx{}, conn: fakeConn{&net.TCPAddr{IP: net.IPv4(10, 0, 0, 7), Port: 4242}}}
-	w.fctx.Init2(w.conn, nil, false)
-	if err := w.serve(q0.wire()); err != nil || caps == nil {
-		return "unserved", nil, false
-	}
-	for _, l := range later {
-		if err := w.serve(l.wire()); err != nil {
-			return "unserved", nil, false
+	if cfg.srv {
+		if !serveTCP(app, append([]request{q0}, later...)) || caps == nil {
+			cfg.srv = false
+			return observe(cfg, q0, later)
+		}
+	} else {
+		w := &worker{h: app.Handler(), fctx: &fasthttp.RequestCtx{}, conn: fakeConn{&net.TCPAddr{IP: net.IPv4(10, 0, 0, 7), Port: 4242}}}
+		w.fctx.Init2(w.conn, nil, false)
+		if err := w.serve(q0.wire()); err != nil || caps == nil {
+			return cfg, "unserved", nil, false
+		}
+		for _, l := range later {
+			if err := w.serve(l.wire()); err != nil {
+				return cfg, "unserved", nil, false
+			}
 		}
 	}
 	parts := make([]string, len(caps))
@@ -1172,7 +1239,7 @@ func observe(cfg config, q0 request, later []request) (obs string, probed []stri
 		parts[i] = cp.id + "=" + cp.during + "/" + cp.end + "/" + after
 		probed = append(probed, cp.id)
 	}
-	return strings.Join(parts, ";"), probed, true
+	return cfg, strings.Join(parts, ";"), probed, true
 }
 
 func encodeLater(later []request) string {
@@ -1189,9 +1256,13 @@ func encodeLater(later []request) string {
 var probedAll = map[string]bool{}
 
 func emit(w *gen.Writer, id string, cfg config, q0 request, later []request) {
-	obs, probed, ok := observe(cfg, q0, later)
+	want := cfg
+	cfg, obs, probed, ok := observe(cfg, q0, later)
 	if !ok {
 		w.Count("unserved")
+	}
+	if want.srv && !cfg.srv {
+		w.Count("srv-fallback")
 	}
 	for _, p := range probed {
 		probedAll[p] = true
@@ -1248,7 +1319,8 @@ func main() {
 	for i := 0; i < o.N; i++ {
 		r := root.Fork(uint64(i))
 		q0 := genRequest(r)
-		cfg := config{imm: !r.Chance(1, 4), cs: r.Chance(1, 4), split: r.Chance(1, 3), ph: r.Chance(1, 4), ipv: r.Chance(1, 6), tp: r.Chance(1, 6)}
+		cfg := config{imm: !r.Chance(1, 4), cs: r.Chance(1, 4), split: r.Chance(1, 3), ph: r.Chance(1, 4), ipv: r.Chance(1, 6), tp: r.Chance(1, 6),
+			srv: r.Chance(1, 40)}
 		var later []request
 		n := r.Intn(maxLater)
 		if cfg.imm && n == 0 {
@@ -1277,6 +1349,15 @@ func main() {
 		}
 		w.Count(fmt.Sprintf("later=%d", len(later)))
 		w.Count(fmt.Sprintf("body=%c", q0.bkind))
+		// every generated case must be replayable: the decoder's domain check has to accept it
+		for _, q := range append([]request{q0}, later...) {
+			if rq, ok := decodeRequest(q.encode()); !ok || rq.encode() != q.encode() {
+				panic("generator produced a request outside the replayable vocabulary: " + q.encode())
+			}
+		}
+		if c2, ok := decodeConfig(cfg.encode()); !ok || c2 != cfg {
+			panic("generator produced a configuration that does not round-trip: " + cfg.encode())
+		}
 		emit(w, fmt.Sprintf("s%d.%d", o.Seed, i), cfg, q0, later)
 	}
 	// which accessors received a dynamic confirmation in this run (compared with the regenerated table)
